@@ -317,6 +317,9 @@ class XMLReader(object):
             root = ET.XML(string, self.parser)
         except ET.XMLSyntaxError as exc:
             raise ParserException(exc.msg)
+        except ValueError as exc:
+            # e.g. unicode strings with an XML encoding declaration
+            raise ParserException(str(exc))
 
         self._handle_version(root)
         return self.parse_element(root)
